@@ -1831,8 +1831,8 @@ impl GlyphBuffer {
             }
 
             if flags.contains(SerializeFlags::NO_ADVANCES) {
-                x += pos.x_advance;
-                y += pos.y_advance;
+                x = x.wrapping_add(pos.x_advance);
+                y = y.wrapping_add(pos.y_advance);
             }
 
             s.push('|');
